@@ -135,7 +135,7 @@ func (state coreWrapper) Teardown(ctx context.Context, resourcePointer resource.
 			r.Metadata().SetPhase(resource.PhaseTearingDown)
 
 			return nil
-		}, WithUpdateOwner(options.Owner))
+		}, WithUpdateOwner(options.Owner), WithExpectedPhaseAny()) // a concurrent Teardown might have won the race
 		if err != nil {
 			return false, err
 		}
